@@ -62,6 +62,9 @@ def run(ctx):
                        cosmo_params=r.choice([{}, {"Om0": 0.25}]), hmf_model="SMT")
             if rep < 4:
                 cfg["filter_model"] = ["SharpKEllipsoid", "TopHat", "SharpK", "Gaussian"][rep]      # every filter at least once (their dlnr/dlnm differ)
+            if rep in (1, 3):
+                # a wavenumber range narrow enough to truncate the variance integral: slope and sigma must still belong together
+                cfg.update(lnk_min=[-14.0, float(np.log(1e-3))][rep // 2], lnk_max=[float(np.log(10.0)), 11.0][rep // 2], Mmin=10.0 if rep == 1 else 9.0)
             mf = MassFunction(**copy.deepcopy(cfg))
             lns, lnm = np.log(mf.sigma), np.log(mf.m)
             num = np.gradient(lns, lnm)
